@@ -9,8 +9,18 @@ def make_user_code(spec):
     'stab_ops': [[[qubit_idx, 'X'|'Y'|'Z'], ...], ...],
     'logicals_x': [...same form...], 'logicals_z': [...]}"""
     from panqec.codes import StabilizerCode
-    qubits = [tuple(q) for q in spec['qubits']]
-    stabs = [tuple(s) for s in spec['stabs']]
+    # "any coordinate system": plain ints, numpy ints, or an undoubled
+    # lattice with half-integer positions (floats)
+    style = spec.get('coord_style', 'int')
+    if style == 'half':
+        conv = lambda c: tuple(v / 2 for v in c)                 # noqa: E731
+    elif style == 'npint':
+        import numpy as np
+        conv = lambda c: tuple(np.int64(v) for v in c)           # noqa: E731
+    else:
+        conv = tuple
+    qubits = [conv(q) for q in spec['qubits']]
+    stabs = [conv(s) for s in spec['stabs']]
     ops = {tuple(s): {qubits[i]: p for i, p in op}
            for s, op in zip(stabs, spec['stab_ops'])}
     lx = [{qubits[i]: p for i, p in op} for op in spec['logicals_x']]
